@@ -97,6 +97,11 @@ func oraclePartial(x *xcase, r *xresult) (bool, string) {
 				}
 			}
 		}
+		if x.contigEnd > 0 && x.contigEnd < end {
+			// the concurrent read paths ask for every chunk at its grid offset: after a short answer the contiguous data ends there,
+			// whatever the later chunks bring (the refusal of the next chunk is still the lowest failing offset)
+			end = x.contigEnd
+		}
 		var want []byte
 		if x.off < x.flen {
 			want = initial[x.off:end]
@@ -184,7 +189,12 @@ func runC13(c *Ctx) {
 		budget = 60000
 	}
 	count := 0
+	nOpaque := 0
 	one := func(x *xcase) {
+		if (x.api == "readfrom" || x.api == "readfromc") && x.src == "opaque" {
+			x.dataEOF = nOpaque%2 == 1 // the source's last bytes come together with io.EOF
+			nOpaque++
+		}
 		r, n := emitX(c, x)
 		if r == nil {
 			return
@@ -230,6 +240,14 @@ func runC13(c *Ctx) {
 					}
 					c.Stat("reads_refused_beyond_the_end")
 					one(x)
+					// and the probing READ right at / right after the end itself refused (after a full or a short last chunk): the
+					// bytes are all there, but the server did not say end-of-file - the refusal is the outcome, never nil
+					for _, conc := range []int{1, 3} {
+						y := &xcase{api: api, p: p, conc: conc, cr: true, cw: false, flen: flen, n: 5 * p, off: 0, maxtx: 32768, src: "opaque", backend: be, regular: true}
+						y.rfail = map[uint64]uint32{uint64(first): codes[(p+tail+conc)%3]}
+						c.Stat("reads_refused_right_at_the_end")
+						one(y)
+					}
 				}
 			}
 		}
@@ -254,6 +272,16 @@ func runC13(c *Ctx) {
 		}
 		c.Stat("refused_follow_up_reads")
 		one(x)
+		// concurrent WriteTo (concurrent ReadAt takes a short answer for the end of the file - the documented side condition of that path): the first chunk answered short (a server may), the second chunk refused - the bytes of the
+		// short answer are the intact prefix, the refusal is the outcome (a short answer alone is not the end of the file)
+		if i%2 == 0 {
+			y := &xcase{api: "writeto", p: p, conc: 2 + i%2, cr: true, cw: false, fst: i%4 == 0, flen: 4*p + 1, n: 3*p + 1, off: 0,
+				maxtx: mt, src: "opaque", backend: "peer", regular: true}
+			y.rfail = map[uint64]uint32{uint64(p): codes[i%3]}
+			y.contigEnd = mt
+			c.Stat("short_answer_then_refused_chunk_concurrent")
+			one(y)
+		}
 	}
 	for count < budget {
 		p := 1 + c.Rng.Intn(4)
